@@ -112,6 +112,22 @@ func (r *JobRun) installFaults(jobID string, spec map[string]any) {
 		}
 		return nil
 	}
+	// transform workers run one at a time, in the order they were started: which worker finishes first is
+	// then no longer left to the Go scheduler and a run is repeatable
+	turn := make(chan struct{}, 1)
+	hooks.onGo = func(name string) {
+		if name == "transform.worker" {
+			turn <- struct{}{}
+		}
+	}
+	hooks.onPointAlways = func(name string) {
+		if name == "transform.worker.done" {
+			select {
+			case <-turn:
+			default:
+			}
+		}
+	}
 	hooks.onFault = func(owner any, name string, hit int64) error {
 		r.recMu.Lock()
 		defer r.recMu.Unlock()
@@ -142,6 +158,8 @@ func (r *JobRun) installFaults(jobID string, spec map[string]any) {
 }
 
 func (r *JobRun) clearFaults() {
+	hooks.onGo = nil
+	hooks.onPointAlways = nil
 	hooks.onFault = nil
 	r.failNextCommit = false
 	hooks.onFaultOn = nil
@@ -521,7 +539,7 @@ func applyVariant(variant string, in []*CanonEnt) []string {
 			out = append(out, e.ID)
 		case "duplicate":
 			out = append(out, e.ID, e.ID+"-dup")
-		case "create":
+		case "create", "append":
 			out = append(out, e.ID, e.ID+"-new")
 		default:
 			out = append(out, e.ID)
@@ -572,18 +590,39 @@ func (r *JobRun) checkTransformDelivery(id, jobType string, cfg map[string]any, 
 		} else if len(gotIn) > len(expIDs) {
 			cls = "entities-transformed-twice"
 		}
-		return viol("C10", "transform-delivery", "transform-input:"+cls, "cell %s: the source delivered %d entities %v, the transform received %d: %v", cell, len(expIDs), shortAll(expIDs), len(gotIn), shortAll(gotIn))
+		_ = cls
+		return viol("C10", "transform-delivery", "delivery-mismatch", "cell %s: [transform input] the source delivered %d entities %v, the transform received %d: %v", cell, len(expIDs), shortAll(expIDs), len(gotIn), shortAll(gotIn))
 	}
 	expOut := applyVariant(variant, expIn)
 	gotOut := flatten(r.delivered)
-	if strings.Join(gotOut, ",") != strings.Join(expOut, ",") {
+	if variant == "append" {
+		// the created entities follow the originals of each worker's chunk: the chunking is the pipeline's
+		// business, so only the multiset and the relative order of the source entities are fixed
+		var origGot []string
+		for _, x := range gotOut {
+			if !strings.HasSuffix(x, "-new") {
+				origGot = append(origGot, x)
+			}
+		}
+		if strings.Join(sortedCopy(gotOut), ",") != strings.Join(sortedCopy(expOut), ",") || strings.Join(origGot, ",") != strings.Join(expIDs, ",") {
+			cls := "wrong-set"
+			if len(gotOut) < len(expOut) {
+				cls = "entities-lost-after-transform"
+			} else if len(gotOut) > len(expOut) {
+				cls = "extra-entities"
+			}
+			_ = cls
+			return viol("C10", "transform-delivery", "delivery-mismatch", "cell %s: [sink input] the transform returned each source entity and one created entity per source entity (%d in all), the sink received %v", cell, len(expOut), shortAll(gotOut))
+		}
+	} else if strings.Join(gotOut, ",") != strings.Join(expOut, ",") {
 		cls := "wrong-order"
 		if len(gotOut) < len(expOut) {
 			cls = "entities-lost-after-transform"
 		} else if len(gotOut) > len(expOut) {
 			cls = "extra-entities"
 		}
-		return viol("C10", "transform-delivery", "sink-input:"+cls, "cell %s: the transform returned %v in this order, the sink received %v", cell, shortAll(expOut), shortAll(gotOut))
+		_ = cls
+		return viol("C10", "transform-delivery", "delivery-mismatch", "cell %s: [sink input] the transform returned %v in this order, the sink received %v", cell, shortAll(expOut), shortAll(gotOut))
 	}
 	if jobType != "fullsync" {
 		r.consumed[id] = len(d.Versions)
